@@ -137,6 +137,7 @@ class State:
         s.nsteps = 0
         s.syms = {}           # symbol base name -> count
         s.symlist = []        # (name, bits) in creation order
+        s.symset = set()
         s.choices = []        # (name, value) of __vp_choice
         s.reached = []        # markers
         s.throwing = False
@@ -159,7 +160,7 @@ class State:
         o.exc = s.exc; o.caught = list(s.caught); o.obs = list(s.obs); o.events = list(s.events)
         o.files = {k: list(v) for k, v in s.files.items()}
         o.handles = {k: list(v) for k, v in s.handles.items()}
-        o.next_h = s.next_h; o.nsteps = s.nsteps; o.syms = dict(s.syms); o.symlist = list(s.symlist)
+        o.next_h = s.next_h; o.nsteps = s.nsteps; o.syms = dict(s.syms); o.symlist = list(s.symlist); o.symset = set(s.symset)
         o.choices = list(s.choices); o.reached = list(s.reached); o.prog = s.prog
         o.fault = s.fault; o.faulted = s.faulted; o.live_heap = s.live_heap
         o.input_tainted_alloc = s.input_tainted_alloc; o.unwritable = s.unwritable; o.forced_choices = s.forced_choices; o.deadline = s.deadline; o.cfg = s.cfg
